@@ -49,7 +49,7 @@ func vC14W2(f func()) { vC14WFn[2], vC14WLn[2] = vHere(); vC14W1(f) }
 //go:noinline
 func vC14W3(f func()) { vC14WFn[3], vC14WLn[3] = vHere(); vC14W2(f) }
 
-const vC14NumEntryPoints = 54
+const vC14NumEntryPoints = 57
 
 func VH_C14() {
 	vProduction()
@@ -116,6 +116,9 @@ func VH_C14() {
 		func() { vC14Fn, vC14Ln = vHere(); _ = lg.Infof("%s", "m") }, // Infof
 		func() { vC14Fn, vC14Ln = vHere(); _ = lg.Warnf("%s", "m") }, // Warnf
 		func() { vC14Fn, vC14Ln = vHere(); _ = lg.Errorf("%s", "m") }, // Errorf
+		func() { vC14Fn, vC14Ln = vHere(); _ = lg.Infof("m") }, // Infof without verbs or arguments
+		func() { vC14Fn, vC14Ln = vHere(); _ = lg.Warnf("m") }, // Warnf without verbs or arguments
+		func() { vC14Fn, vC14Ln = vHere(); _ = lg.Errorf("m") }, // Errorf without verbs or arguments
 		func() { vC14Fn, vC14Ln = vHere(); Error("m") }, // pkg.Error
 		func() { vC14Fn, vC14Ln = vHere(); Warn("m") }, // pkg.Warn
 		func() { vC14Fn, vC14Ln = vHere(); Info("m") }, // pkg.Info
